@@ -13,6 +13,7 @@ from . import front
 from .vals import *
 
 SOLVER_TIMEOUT_MS = int(os.environ.get("VERIF_SOLVER_TIMEOUT_MS", "20000"))
+FEAS_TIMEOUT_MS = int(os.environ.get("VERIF_FEAS_TIMEOUT_MS", "2000"))
 
 
 class Unsupported(Exception):
@@ -182,6 +183,10 @@ class Interp:
         self.opts = opts or {}
         self.solver = z3.Solver()
         self.solver.set("timeout", SOLVER_TIMEOUT_MS)
+        from .abstraction import Abstractor
+        self.asolver = z3.Solver()          # the same assertions with non-linear arithmetic abstracted to UFs
+        self.asolver.set("timeout", 5000)
+        self.abs = Abstractor(self.asolver)
         self.heap = {}
         self.next_oid = 0
         self.keys = []
@@ -249,7 +254,10 @@ class Interp:
             return
         if fml is False:
             fml = FALSE
+        if fml is True:
+            return
         self.solver.add(fml)
+        self.asolver.add(self.abs.ab(fml))
 
     def assume(self, fml):
         self._assert(fml)
@@ -260,12 +268,22 @@ class Interp:
         for k in list(self.keys):
             self._assert(f(k))
 
-    def check(self, *extra):
-        r = self.solver.check(*extra)
-        return r
+    def sat_possible(self, cond=None):
+        """False only if the path condition (plus cond) is certainly unsatisfiable."""
+        if cond is None:
+            if self.asolver.check() == z3.unsat:
+                return False
+        elif self.asolver.check(self.abs.ab(cond)) == z3.unsat:
+            return False
+        self.solver.set("timeout", FEAS_TIMEOUT_MS)
+        try:
+            r = self.solver.check() if cond is None else self.solver.check(cond)
+        finally:
+            self.solver.set("timeout", SOLVER_TIMEOUT_MS)
+        return r != z3.unsat
 
     def feasible(self):
-        return self.solver.check() != z3.unsat
+        return self.sat_possible()
 
     # ---------------------------------------------------------------- decisions
     def _decide(self, nalts, feas):
@@ -293,15 +311,13 @@ class Interp:
         if z3.is_false(cond):
             return False
         if self.no_fork:
-            r1 = self.solver.check(z3.Not(cond))
-            if r1 == z3.unsat:
+            if not self.sat_possible(z3.Not(cond)):
                 return True
-            r2 = self.solver.check(cond)
-            if r2 == z3.unsat:
+            if not self.sat_possible(cond):
                 return False
             raise Unsupported("fork inside a pointwise summary")
         alts = [cond, z3.Not(cond)]
-        d = self._decide(2, lambda i: self.solver.check(alts[i]) != z3.unsat)
+        d = self._decide(2, lambda i: self.sat_possible(alts[i]))
         self._assert(alts[d])
         return d == 0
 
@@ -319,6 +335,8 @@ class Interp:
             ob2 = discharge(self, name, z3.Or(regions, goal), kind=kind, detail=detail)
             if ob2.verdict == "unsat":
                 hit = [fid for fid, r in known if self.solver.check(z3.Not(goal), r) == z3.sat]
+                if not hit:
+                    hit = [fid for fid, r in known]
                 ob.verdict = "known"
                 ob.detail = (detail + " | " if detail else "") + "violations confined to recorded region(s) " + ",".join(hit)
                 ob.known_ids = hit
@@ -532,6 +550,8 @@ class Interp:
                 raise Unsupported("map key %r" % (k,))
             self.add_key(k.t)
             self.mset(o, k.t, v)
+        elif isinstance(o, Obj) and o.kind == "rec" and "_items" in self.heap[o.oid]:
+            self.setitem(self.heap[o.oid]["_items"], k, v)
         elif isinstance(o, Obj) and o.kind == "seq":
             from . import models
             models.seq_setitem(self, o, k, v)
@@ -647,6 +667,8 @@ class Interp:
                     return self.ev(node)
                 finally:
                     self.frames.pop()
+            if "_items" in f and attr in ("items", "keys", "values", "get", "copy"):
+                return BoundMethod(f["_items"], attr)
             raise Unsupported("attribute %s.%s" % (o.cls, attr))
         if isinstance(o, RowRef):
             cols = self.heap[o.m.oid]["cols"]
@@ -686,6 +708,8 @@ class Interp:
             r = resolve_method(o.cls, "__getitem__")
             if r is not None:
                 return self.call_repo(o.cls, "__getitem__", o, [k])
+            if "_items" in self.heap[o.oid]:
+                return self.getitem(self.heap[o.oid]["_items"], k)
         return models.getitem_value(self, o, k)
 
     def e_BinOp(self, e):
